@@ -308,10 +308,10 @@ def split_stub(real_split):
                 raise TypeError("split stub lost track of token %r" % (t,))
             tn = names[pos:pos + span]
             if any(n is not None for n in tn):
-                digs = [s.digits[n] for n in tn if n is not None]
-                dots = [i for i, ch in enumerate(t) if ch == "."]
-                if any((n is None) and (t[i] not in ".") for i, n in enumerate(tn)):
+                if any((n is None) and (t[i] not in ".0123456789") for i, n in enumerate(tn)):
                     raise TypeError("token %r mixes digits and letters: not modelled" % (t,))
+                digs = [(s.digits[n] if n is not None else int(t[i])) for i, n in enumerate(tn) if t[i] != "."]
+                dots = [i for i, ch in enumerate(t) if ch == "."]
                 if len(dots) > 1:
                     raise TypeError("numeric token with two dots: not modelled")
                 out.append(NumTok(digs, dots[0] if dots else None))
